@@ -49,6 +49,15 @@ class Harness:
         return 96
 
 
+def _innermost(tb):
+    """file of the innermost frame, looking through the import hook's helpers and the proxies (they act on behalf of the caller)"""
+    for f in reversed(tb):
+        if f.filename.endswith(("/sx/instrument.py", "/sx/core.py", "/sx/symre.py")):
+            continue
+        return f.filename
+    return ""
+
+
 def _jsonable(x):
     try:
         json.dumps(x)
@@ -139,7 +148,9 @@ def _explore_shard(args):
                     continue
                 tb = traceback.extract_tb(e.__traceback__)
                 where = ["%s:%d:%s" % (f.filename.replace(REPO_PREFIX, ""), f.lineno, f.name) for f in tb if f.filename.startswith(REPO_PREFIX)][-3:]
-                if not where:  # raised by harness code itself, not by the code under check
+                inner = _innermost(tb)
+                if not where or not (inner.startswith(REPO_PREFIX) or "/lib/python" in inner or inner.startswith("<")):
+                    # raised by harness code itself (innermost frame is neither the code under check nor a library it called)
                     st["exceptions"] -= 1
                     st["harness_exc"] = st.get("harness_exc", 0) + 1
                     k = "HARNESS BUG %s: %s @ %s" % (type(e).__name__, str(e)[:100], ["%s:%d" % (f.filename.rsplit("/", 1)[-1], f.lineno) for f in tb][-2:])
@@ -343,6 +354,9 @@ def concrete_run(h, p, values):
             return "holds", "allowed exception %s" % type(e).__name__
         tb = traceback.extract_tb(e.__traceback__)
         where = ["%s:%d:%s" % (f.filename.replace(REPO_PREFIX, ""), f.lineno, f.name) for f in tb if f.filename.startswith(REPO_PREFIX)][-3:]
+        inner = _innermost(tb)
+        if not where or not (inner.startswith(REPO_PREFIX) or "/lib/python" in inner or inner.startswith("<")):
+            return "abort", "exception inside harness code: %s: %s @ %s" % (type(e).__name__, str(e)[:100], ["%s:%d" % (f.filename.rsplit("/", 1)[-1], f.lineno) for f in tb][-2:])
         return "exception", {"type": type(e).__name__, "msg": str(e)[:200], "where": where}
     phi = core.f_of(phi)
     if core.is_z3(phi):
